@@ -138,7 +138,7 @@ func floatFixSweep[S constraints.Float, D constraints.Integer](w *numWriter, rng
 	for i := range blk {
 		blk[i] = xs[rng.Intn(len(xs))]
 	}
-	repeatDistinct(conv, blk, 120, func(x S, y D) {
+	repeatDistinct(conv, blk, 300, func(x S, y D) {
 		if x == x {
 			w.emit(&NEvent{Op: "P", F: floatJ(float64(x)), Y: numOfInt(y)})
 		}
@@ -245,7 +245,7 @@ func fixFloatSweep[S constraints.Integer, D constraints.Float](w *numWriter, rng
 		for i := range blk {
 			blk[i] = xs[rng.Intn(len(xs))]
 		}
-		repeatDistinct(conv, blk, 120, func(x S, y D) { w.emit(&NEvent{Op: "P", X: numOfInt(x), G: floatJ(float64(y))}) })
+		repeatDistinct(conv, blk, 300, func(x S, y D) { w.emit(&NEvent{Op: "P", X: numOfInt(x), G: floatJ(float64(y))}) })
 	}
 	if exhaustive16 && sd == 32 && p == 53 { // thorough tier (through float64; float32 cannot hold 32-bit codes and nothing is claimed): the round trip of EVERY 32-bit code, as runs of constant z - x
 		fixFloatRoundTrips32(w, conv, back)
